@@ -31,10 +31,12 @@ MANIFEST = {
              "small alphabet, random beyond."),
     "technique": "Lean 4 proof (simulation invariant over event schedules) + deterministic scheduler over the real coroutines + correspondence",
 }
-RULE = ("schedules over {async_subscribe(svc) started, NOTIFY arrives (SID of service 0 / service 1 / never granted; 1..3 variables; "
-        "valid headers or not), SUBSCRIBE response arrives (200+SID, refused, unreachable, no SID)}: all interleavings of up to 3-4 "
-        "NOTIFYs with the two responses for every assignment of variables to NOTIFYs (exhaustive part) plus random schedules over "
-        "1..3 services; after every event the status / returned value and every variable of every service are compared and judged. "
+RULE = ("schedules over {async_subscribe(svc) started, NOTIFY arrives, SUBSCRIBE response arrives}. Exhaustive part (thorough): both "
+        "subscribes started, then ALL interleavings of NOTIFY#0..#k with the response of service 0 and the completion of service 1's "
+        "subscribe, for EVERY assignment of a non-empty subset of two variables and of a SID to each NOTIFY — k<=2 with SIDs {service "
+        "0's, service 1's, never granted}, k=3 with SIDs {service 0's, never granted} (quick: one NOTIFY fewer, k=2 for service 0's SID "
+        "only); plus random schedules over 1..3 services with refused / unreachable / SID-less responses, invalid headers and values; "
+        "after every event the status / returned value and every variable of every service are compared and judged. "
         "non-trivial = at least one NOTIFY arrived before the response that granted its SID")
 EXHAUSTIVE = {"quick": False, "thorough": True}
 ASSUMPTIONS = [
@@ -238,10 +240,10 @@ def exhaustive(ctx: Ctx):
             ns = [notify(sid, carry(j, sub)) for j, (sid, sub) in enumerate(choice)]
             for seq in interleavings(ns, grant(0, S0), grant(1, S1, None)):
                 out.append({"ops": seq})
-    # one more NOTIFY, all for service 0's SID
+    # one more NOTIFY (k = 3 in thorough): SIDs of the subscribing service / never granted
     m = max_full + 1
-    for choice in itertools.product(SUBSETS, repeat=m):
-        ns = [notify(S0, carry(j, sub)) for j, sub in enumerate(choice)]
+    for choice in itertools.product(itertools.product([S0, S9] if ctx.thorough else [S0], SUBSETS), repeat=m):
+        ns = [notify(sid, carry(j, sub)) for j, (sid, sub) in enumerate(choice)]
         for seq in interleavings(ns, grant(0, S0), ["respond", 1, ["resp", 500, None, None]]):
             out.append({"ops": seq})
     return out
